@@ -367,35 +367,61 @@ func mgMutationOracle(rng *rand.Rand, max int, build func() (inputs []ygot.GoStr
 		if res == nil {
 			return runs
 		}
-		cellsOf := func(ins []ygot.GoStruct, res ygot.GoStruct) []mgCell {
+		// cellsOf lists the cells of the side that is written to (one per location) and says which of
+		// them are, by address, also cells of the other side: those are written to first
+		cellsOf := func(ins []ygot.GoStruct, res ygot.GoStruct) ([]mgCell, []bool) {
 			h := newMgHeap()
+			var nOther int
 			if side == "result" {
+				for _, in := range ins {
+					h.dump(in)
+				}
+				nOther = len(h.cells)
 				h.dump(res)
 			} else {
+				h.dump(res)
+				nOther = len(h.cells)
 				for _, in := range ins {
 					h.dump(in)
 				}
 			}
+			otherLocs := map[int]bool{}
+			for _, c := range h.cells[:nOther] {
+				otherLocs[c.loc] = true
+			}
 			// one mutation per cell
 			seen := map[int]bool{}
 			var out []mgCell
-			for _, c := range h.cells {
+			var shared []bool
+			for _, c := range h.cells[nOther:] {
 				if !seen[c.loc] {
 					seen[c.loc] = true
 					out = append(out, c)
+					shared = append(shared, otherLocs[c.loc])
 				}
 			}
-			return out
+			return out, shared
 		}
-		n := len(cellsOf(ins, res))
-		idx := rng.Perm(n)
-		if len(idx) > max {
-			idx = idx[:max]
+		_, sh := cellsOf(ins, res)
+		n := len(sh)
+		var idx []int
+		for i, b := range sh {
+			if b && len(idx) < max {
+				idx = append(idx, i)
+			}
+		}
+		for _, i := range rng.Perm(n) {
+			if len(idx) >= max {
+				break
+			}
+			if !sh[i] {
+				idx = append(idx, i)
+			}
 		}
 		sort.Ints(idx)
 		for _, i := range idx {
 			ins, res := build()
-			cells := cellsOf(ins, res)
+			cells, _ := cellsOf(ins, res)
 			if i >= len(cells) {
 				continue
 			}
@@ -554,6 +580,11 @@ func mgAliasCase(p *reg.Pkg, seed int64, tier string, id *int, tf *treeFile, sum
 			sum.count("wrapper_binary_leaves", fmt.Sprint(n))
 		}
 		ow, em = rng.Intn(4) == 0, rng.Intn(4) == 0
+		if pr.mode == "conflict" {
+			// a conflict only merges with MergeOverwriteExistingFields: the overwritten field of the
+			// result must be a new cell, not b's
+			ow = rng.Intn(4) != 0
+		}
 		var err error
 		var pan bool
 		r, err, pan = mgSafeMerge(pr.a, pr.b, mgOpts(ow, em)...)
